@@ -57,45 +57,48 @@ Proof.
     intros [|m] Hm; simpl; auto.
 Qed.
 
+Section G.
+Variable sc : str -> res (option str).
+
 (* files: element-wise on the chosen column, everything else preserved; atomic on failure *)
-Theorem file_ok c f st pa am header rows col rows' : file_rows c f st pa am rows col = Val rows' ->
-  file_after c f st pa am header rows col = (Val tt, (header, rows')) /\ length rows' = length rows /\
-  forall n row, nth_error rows n = Some row -> exists x v row', nth_error row col = Some x /\ scalar c f st pa am x = Val v /\
+Theorem file_ok header rows col rows' : file_rows_g sc rows col = Val rows' ->
+  file_after_g sc header rows col = (Val tt, (header, rows')) /\ length rows' = length rows /\
+  forall n row, nth_error rows n = Some row -> exists x v row', nth_error row col = Some x /\ sc x = Val v /\
      nth_error rows' n = Some row' /\ length row' = length row /\
      nth_error row' col = Some (match v with Some y => y | None => [] end) /\
      forall m, m <> col -> nth_error row' m = nth_error row m.
 Proof.
-  intro H. split; [unfold file_after; rewrite H; reflexivity|].
+  intro H. split; [unfold file_after_g; rewrite H; reflexivity|].
   apply map_res_ok in H as [L N]. split; auto. intros n row Hn. destruct (N n row Hn) as (row' & Hr' & E).
-  destruct (nth_error row col) as [x|] eqn:Ex; [|discriminate]. destruct (scalar c f st pa am x) as [v|e] eqn:Es; [|discriminate].
+  destruct (nth_error row col) as [x|] eqn:Ex; [|discriminate]. destruct (sc x) as [v|e] eqn:Es; [|discriminate].
   destruct (set_nth col _ row) as [r|] eqn:S; [|discriminate]. inversion E; subst.
   destruct (set_nth_spec _ _ _ _ S) as (A1 & A2 & A3). exists x, v, row'. repeat split; auto.
 Qed.
-Theorem file_atomic c f st pa am header rows col e : file_rows c f st pa am rows col = Raise e ->
-  file_after c f st pa am header rows col = (Raise e, (header, rows)).
-Proof. intro H. unfold file_after. rewrite H. reflexivity. Qed.
+Theorem file_atomic header rows col e : file_rows_g sc rows col = Raise e ->
+  file_after_g sc header rows col = (Raise e, (header, rows)).
+Proof. intro H. unfold file_after_g. rewrite H. reflexivity. Qed.
 (* whichever row fails first: nothing is written *)
-Theorem file_atomic_any_position c f st pa am header rows col : 
+Theorem file_atomic_any_position header rows col : 
   (exists n row, nth_error rows n = Some row /\
-     (nth_error row col = None \/ exists x e, nth_error row col = Some x /\ scalar c f st pa am x = Raise e)) ->
-  exists e, file_after c f st pa am header rows col = (Raise e, (header, rows)).
+     (nth_error row col = None \/ exists x e, nth_error row col = Some x /\ sc x = Raise e)) ->
+  exists e, file_after_g sc header rows col = (Raise e, (header, rows)).
 Proof.
   intros (n & row & Hn & Hbad).
-  destruct (file_rows c f st pa am rows col) as [rows'|e] eqn:E.
+  destruct (file_rows_g sc rows col) as [rows'|e] eqn:E.
   - exfalso. apply map_res_ok in E as [_ N]. destruct (N n row Hn) as (row' & _ & E).
     destruct Hbad as [Hb|(x & e & Hx & He)]; [rewrite Hb in E; discriminate|rewrite Hx, He in E; discriminate].
   - exists e. apply file_atomic; auto.
 Qed.
 
 (* data frames: the target column holds the scalar results, None -> NA, every other cell is preserved *)
-Theorem pd_ok c f st pa am rows col target t : pd_apply c f st pa am rows col target = Val t ->
+Theorem pd_ok rows col target t : pd_apply_g sc rows col target = Val t ->
   length t = length rows /\
-  forall n row, nth_error rows n = Some row -> exists x v row', nth_error row col = Some (Some x) /\ scalar c f st pa am x = Val v /\
+  forall n row, nth_error rows n = Some row -> exists x v row', nth_error row col = Some (Some x) /\ sc x = Val v /\
     nth_error t n = Some row' /\
     (target < length row -> length row' = length row /\ nth_error row' target = Some v /\ forall m, m <> target -> nth_error row' m = nth_error row m) /\
     (length row <= target -> row' = row ++ [v]).
 Proof.
-  unfold pd_apply. destruct (map_res _ rows) as [vals|e] eqn:M; [|discriminate]. intro H; inversion H; subst. clear H.
+  unfold pd_apply_g. destruct (map_res _ rows) as [vals|e] eqn:M; [|discriminate]. intro H; inversion H; subst. clear H.
   apply map_res_ok in M as [L N]. split; [rewrite map_length, combine_length; lia|].
   intros n row Hn. destruct (N n row Hn) as (v & Hv & E).
   destruct (nth_error row col) as [[x|]|] eqn:Ec; try discriminate. exists x, v.
@@ -118,10 +121,12 @@ Proof.
     + exfalso. clear -S H. revert row S H. induction target; intros [|a row] S H; simpl in *; try discriminate; try lia.
       destruct (set_nth target v row) eqn:E; [discriminate|]. apply (IHtarget row); auto. lia.
 Qed.
-Theorem pd_error c f st pa am rows col target e : pd_apply c f st pa am rows col target = Raise e ->
+Theorem pd_error rows col target e : pd_apply_g sc rows col target = Raise e ->
   exists n row, nth_error rows n = Some row /\
-    (match nth_error row col with Some (Some x) => scalar c f st pa am x | _ => Raise EOther end) = Raise e.
+    (match nth_error row col with Some (Some x) => sc x | _ => Raise EOther end) = Raise e.
 Proof.
-  unfold pd_apply. destruct (map_res _ rows) as [vals|e0] eqn:M; [discriminate|]. intro H; inversion H; subst.
+  unfold pd_apply_g. destruct (map_res _ rows) as [vals|e0] eqn:M; [discriminate|]. intro H; inversion H; subst.
   apply map_res_first_error in M as (n & row & Hn & Hx & _). eauto.
 Qed.
+
+End G.
